@@ -519,6 +519,16 @@ func (l *IPFSLog) Iterator(options *IteratorOptions, output chan<- iface.IPFSLog
 	return nil
 }
 
+// headsAndEntries returns the heads and a copy of the entry index as they
+// are at one instant.
+func (l *IPFSLog) headsAndEntries() ([]iface.IPFSLogEntry, iface.IPFSLogOrderedEntries) {
+	verifBeforeLock(l, false, "headsAndEntries")
+	l.lock.RLock()
+	defer l.lock.RUnlock()
+
+	return l.heads.Slice(), l.Entries.Copy()
+}
+
 // Join Joins the log with another log
 //
 // Returns a log instance.
@@ -542,12 +552,20 @@ func (l *IPFSLog) Join(otherLog iface.IPFSLog, size int) (iface.IPFSLog, error) 
 	}
 
 	// Snapshot the other log before taking our own lock (holding both would
-	// deadlock with a concurrent otherLog.Join(l)). Heads are read before the
-	// entries: the log only grows, so everything these heads reach is in the
-	// entries read afterwards, and the merge is the union with the state the
-	// other log had when its heads were read.
-	otherHeads := otherLog.RawHeads().Slice()
-	otherEntries := otherLog.GetEntries()
+	// deadlock with a concurrent otherLog.Join(l)). A log of this package is
+	// read in one critical section: a size-bounded Join may be cutting it at
+	// this very moment, and heads of one state do not go with the entries of
+	// another. For other implementations heads are read before the entries: as
+	// long as such a log only grows, everything these heads reach is in the
+	// entries read afterwards.
+	var otherHeads []iface.IPFSLogEntry
+	var otherEntries iface.IPFSLogOrderedEntries
+	if other, ok := otherLog.(*IPFSLog); ok {
+		otherHeads, otherEntries = other.headsAndEntries()
+	} else {
+		otherHeads = otherLog.RawHeads().Slice()
+		otherEntries = otherLog.GetEntries()
+	}
 
 	verifBeforeLock(l, true, "Join")
 	l.lock.Lock()
